@@ -28,9 +28,29 @@ def build(cid, t, st, named=None, solve=None):
     return cb
 
 
+def jackpot_tree(rng):
+    """a decision that is reached with probability ~1e-17..1e-30 but whose payoffs are of the order of 1/reach:
+    its contribution to the best-response value is of order one although its reach is below machine epsilon"""
+    from ..gen import tree_stats
+    reach = rng.choice([1e-17, 3e-20, 1e-30])
+    big = rng.choice([1.0, 2.0, 5.0]) / reach
+    pl = rng.choice([1, 2])
+    rare = {"p": pl, "i": 50, "a": [[1, {"t": f2b(big)}], [2, {"t": f2b(-big)}], [3, {"t": f2b(0.0)}]]}
+    if rng.random() < 0.5:
+        rare = {"p": 3 - pl, "i": 60, "a": [[1, rare], [2, {"t": f2b(rng.uniform(-1, 1))}]]}
+    common = {"p": rng.choice([1, 2]), "i": 70, "a": [[1, {"t": f2b(rng.uniform(-3, 3))}], [2, {"t": f2b(rng.uniform(-3, 3))}]]}
+    t = {"c": None, "o": [[f2b(1.0), common], [f2b(reach), rare]]}
+    return t, tree_stats(t)
+
+
 def generate(rng, tier, n):
     cases = []
     cid = 0
+    for _ in range(max(4, n // 30)):
+        t, st = jackpot_tree(rng)
+        cases.append(build(cid, t, st, named=random_named(rng, t, rng.choice(["pure", "dirichlet", "uniform"]))))
+        cases[-1].meta["jackpot"] = True
+        cid += 1
     while len(cases) < n:
         t, st = gen_tree(rng, max_nodes=rng.choice([8, 20, 40, 70]), max_depth=rng.choice([3, 5, 7]),
                          p_share=rng.choice([0.5, 0.8]), max_actions=rng.choice([2, 3, 4]))
@@ -70,7 +90,7 @@ def monitor(cb, impl):
     strat = oracle.strat_from_named(ops[1]["ok"])
     util, r1, r2, reg, u2 = [b2f(x) for x in ops[2]["ok"]]
     lo, hi = oracle.payoff_range(cb.tree)
-    scale = max(1.0, abs(lo), abs(hi))
+    scale = max(1.0, min(max(abs(lo), abs(hi)), oracle.payoff_mass(cb.tree) * 16))
     tol = 1e-9 * scale
     eu = oracle.expected_utility(cb.tree, strat)
     if abs(eu - util) > tol:
